@@ -143,7 +143,9 @@ func (x *Exec) sectionCut(fc *funcCtx, n *node, c *Clause) {
 	env := x.localSpecEnv(st, n.guard, false)
 	g := env.EvalBool(c.Expr)
 	x.reportSpecErrors(env, x.TopName, c)
-	x.Oblige("cut", fmt.Sprintf("%s#%d: %s", c.Block, c.Ord, clauseLabel(c)), "", n.b.Instrs[0].Pos(), n.guard, g, c.Props)
+	if !n.cutProved {
+		x.Oblige("cut", fmt.Sprintf("%s#%d: %s", c.Block, c.Ord, clauseLabel(c)), "", n.b.Instrs[0].Pos(), n.guard, g, c.Props)
+	}
 	prevSt := st.PrevCut
 	if prevSt == nil {
 		prevSt = x.Entry
@@ -212,6 +214,9 @@ func (x *Exec) sectionCut(fc *funcCtx, n *node, c *Clause) {
 				if w.epoch != st.CutEpoch || w.key != key {
 					continue
 				}
+				if w.fresh && w.allocEpoch == w.epoch {
+					continue // object allocated in this very section: nothing to preserve
+				}
 				var in *Term
 				if w.lo == nil {
 					in = False
@@ -251,6 +256,14 @@ func (x *Exec) sectionCut(fc *funcCtx, n *node, c *Clause) {
 			st.Vars[phi.Comment] = v
 		}
 	}
+	// guard collapsing: if this cut block post-dominates the previous cut block (or the entry), every execution that
+	// passed the previous cut reaches this one unless it fails an obligation reported elsewhere (failed check, unwinding
+	// assertion); the path condition accumulated inside the section is then irrelevant after the cut and the guard of
+	// the previous cut is used from here on.
+	if pg, ok := x.collapseGuard(fc, n, st); ok {
+		n.guard = pg
+		st.G = pg
+	}
 	env2 := x.localSpecEnv(st, n.guard, true)
 	g2 := env2.EvalBool(c.Expr)
 	x.reportSpecErrors(env2, x.TopName, c)
@@ -258,6 +271,39 @@ func (x *Exec) sectionCut(fc *funcCtx, n *node, c *Clause) {
 	snap := st.Clone()
 	snap.PrevCut = nil
 	st.PrevCut = snap
+	st.PrevCutGuard = n.guard
+	st.PrevCutBlock = n.b
+}
+
+func (x *Exec) collapseGuard(fc *funcCtx, n *node, st *State) (*Term, bool) {
+	var from *ssa.BasicBlock
+	var g *Term
+	if st.PrevCutBlock != nil {
+		from, g = st.PrevCutBlock, st.PrevCutGuard
+	} else {
+		from, g = fc.fn.Blocks[0], fc.entryGuard
+	}
+	if g == nil || from == n.b {
+		return nil, false
+	}
+	// does n.b post-dominate from? search for a path from `from` to an exit (return/panic/no successors) avoiding n.b
+	seen := map[*ssa.BasicBlock]bool{n.b: true}
+	work := []*ssa.BasicBlock{from}
+	for len(work) > 0 {
+		b := work[len(work)-1]
+		work = work[:len(work)-1]
+		if seen[b] {
+			continue
+		}
+		seen[b] = true
+		if len(b.Succs) == 0 {
+			return nil, false
+		}
+		for _, s := range b.Succs {
+			work = append(work, s)
+		}
+	}
+	return g, true
 }
 
 var _ = types.Typ
